@@ -133,16 +133,6 @@ Proof.
 Qed.
 
 (* ---------------- backfilling usage accounting ---------------- *)
-Lemma bf_used_zero_refuted :
-  exists (c : cfg) (ops : list op), c_kind c = BF /\ ok_bf_used_zero c ops (run c st0 ops) = false.
-Proof.
-  exists (mkCfg BF 200 4 4).
-  exists [OAdd TMine [(1, P_PMGR_ACTIVE, 4)];
-          OSubmit [mkTask 1 (Some 1) 1; mkTask 2 None 2];
-          OTStates [(1, T_DONE, -1); (2, T_DONE, -1)]].
-  split; [reflexivity|vm_compute; reflexivity].
-Qed.
-
 Lemma bf_credit_once pl uid pid cores st p i :
   aget pid pl = Some p -> p_info p = Some i ->
   memz uid (i_tasks i) = true -> memz uid (i_done i) = false ->
